@@ -111,6 +111,7 @@ func checkC16(c *Ctx) {
 	r.Rule("R16.3", "no whole-struct read of a struct with an ATOMIC field while atomic writers exist", 1)
 	r.Rule("R16.5", "key-lock values: written by the owner before release only", 2)
 	r.Rule("R16.6", "every struct field of the package is classified", 1)
+	r.Rule("R16.7", "constructors initialise everything the background goroutines read before starting them", 3)
 	r.NotDecided = []string{"races inside user code and the standard library", "fields of USER class (Invalidator.Callbacks, HTTPTransfer.*, gob registry globals: registration-time)",
 		"goroutine start vs. later constructor writes (constructors publish fields the goroutines read before starting them: read by hand)"}
 	c.c16Classified()
@@ -119,6 +120,7 @@ func checkC16(c *Ctx) {
 	for _, sib := range siblings {
 		c.c16KeyLock(sib)
 	}
+	c.c16PublishBeforeStart()
 	// deep guard of the label index
 	c.withAlias(map[string]string{"R15.1": "R16.1"}, func() { c.c15Guarded() })
 }
@@ -624,4 +626,69 @@ func (c *Ctx) c16KeyLock(sib string) {
 		r.OK("R16.5", cons, fmt.Sprintf("%d writes, all by the owner before its release", n))
 	}
 	_ = token.NoPos
+}
+
+// c16PublishBeforeStart: R16.7 — the backend constructors hand their methods to NewTrait(Of), which starts the janitor and
+// reporter goroutines; every field those methods read must be written before that call.
+func (c *Ctx) c16PublishBeforeStart() {
+	r := c.R
+	for _, b := range backends {
+		// fields read by the callbacks the janitor / reporter invoke
+		readBy := map[string]bool{}
+		for _, m := range []string{"deleteExpired", "Len", "evictMostExpired", "evictLeastCounter"} {
+			run := c.bk(b, b.Name+"."+m, false)
+			if run.err != nil {
+				r.Unknown("R16.7", b.Name+"."+m, run.err.Error())
+				continue
+			}
+			for _, p := range run.paths {
+				for _, ev := range p.Events {
+					if ev.Kind == pw.EvFieldRead && ev.Field != nil {
+						readBy[ev.Field.Name()] = true
+					}
+				}
+			}
+		}
+		ctor := "New" + b.Wrapper
+		_, paths, _, err := c.runFunc(ctor, pw.Policy{Inline: noInline})
+		if err != nil {
+			r.Unknown("R16.7", ctor, err.Error())
+			continue
+		}
+		bad := false
+		nStart := 0
+		for _, p := range paths {
+			started := false
+			for _, ev := range p.Events {
+				if ev.Kind == pw.EvCall && (ev.Role == "Repo:NewTrait" || ev.Role == "Repo:NewTraitOf") {
+					started = true
+					nStart++
+					continue
+				}
+				if !started {
+					continue
+				}
+				var fld string
+				switch ev.Kind {
+				case pw.EvFieldWrite:
+					if ev.Field != nil {
+						fld = ev.Field.Name()
+					}
+				case pw.EvMapInsert, pw.EvIndexWrite:
+					if ev.Recv != nil && ev.Recv.Field != nil {
+						fld = ev.Recv.Field.Name()
+					}
+				}
+				if fld != "" && readBy[fld] {
+					r.Bad("R16.7", ctor, "write-after-goroutine-start:"+fld, c.Pos(ev.Pos), "the constructor writes "+fld+" after NewTrait started the janitor/reporter goroutines, which read it through the installed callbacks (unordered write/read)", shortTrace(p))
+					bad = true
+				}
+			}
+		}
+		if nStart == 0 {
+			r.Unknown("R16.7", ctor, "no NewTrait call found")
+		} else if !bad {
+			r.OK("R16.7", ctor, fmt.Sprintf("fields read by the janitor callbacks (%d) are all written before NewTrait", len(readBy)))
+		}
+	}
 }
